@@ -6,6 +6,10 @@ import (
 	"encoding/json"
 	"fmt"
 	"math/rand"
+	"os"
+	"path/filepath"
+	"strings"
+	"sync"
 
 	"verifharness/pkg/emit"
 )
@@ -13,14 +17,146 @@ import (
 func init() { register("C06", c06Run) }
 
 type c06In struct {
-	Cfg   c06Cfg     `json:"cfg"`
-	Subj  c06Subject `json:"subject"`
-	Steps []c06Hop   `json:"steps"`
+	Cfg     c06Cfg     `json:"cfg"`
+	Subj    c06Subject `json:"subject"`
+	Steps   []c06Hop   `json:"steps"`
+	Backend string     `json:"backend,omitempty"` // "" = in-memory double, "filestorage" = the real FileStorage on a temp directory
 }
 
-// c06RunCase runs one history on the real code and emits the case.
-func c06RunCase(w *emit.Writer, in c06In, origin string) {
+// c06Result: one executed history, ready to be added to the writer (histories run in parallel, the
+// writer is fed in input order).
+type c06Result struct {
+	c     emit.Case
+	hist  []string
+	notes []string
+	skip  string
+	ops   []int // Storage calls made by each step
+	logs  [][]string
+}
+
+func c06CountOps(o c06Obs) int {
+	n := 0
+	for _, ev := range o.logEnc {
+		if ev[0] == 0 {
+			n++
+		}
+	}
+	return n
+}
+
+// c06SweepBases: histories whose marked step is run once per Storage-call index with that call
+// failing (obtain, forced renewal, renewal of a due certificate by manage; one and two issuers; fresh
+// and reused key), followed by a fault-free manage. The property's first clause binds under storage
+// errors too: a reported success must have left a complete, matching, reloadable bundle.
+// c06QuarantineBases: a certificate revoked for key compromise is replaced by manage; the marked step
+// is run with each Storage call of the quarantine (moveCompromisedPrivateKey: Load .key, Store
+// .key.compromised, Delete .key) failing - only those: a storage error inside the obtain that follows would
+// be retried with minutes of back-off (not modelled). Whatever fails there, nothing may be issued on the
+// compromised key.
+func c06QuarantineBases() (bases []c06In, target []int) {
+	dns := c06Subjects[0]
+	m := func(o ...c06Outcome) c06Hop { return c06Hop{Op: "manage", Orc: c06Orc(o...)} }
+	rev := c06Hop{Op: "revenv", I: 0, KC: true}
+	for _, reuse := range []bool{true, false} {
+		c1 := c06Cfg{N: 1, Reuse: reuse, KeyType: "p256"}
+		c2 := c06Cfg{N: 2, Reuse: reuse, KeyType: "p256"}
+		bases = append(bases,
+			c06In{Cfg: c1, Subj: dns, Steps: []c06Hop{m(c06Up(10, 0)), rev, m(c06Up(20, 0)), m(c06Up(30, 0))}},
+			c06In{Cfg: c1, Subj: dns, Steps: []c06Hop{m(c06Up(10, 1)), rev, m(c06Up(20, 0)), m(c06Up(30, 0))}},
+			c06In{Cfg: c2, Subj: dns, Steps: []c06Hop{m(c06Up(10, 0), c06Down), rev, m(c06Up(20, 0), c06Up(20, 0)), m(c06Up(30, 0), c06Up(30, 0))}},
+			c06In{Cfg: c2, Subj: dns, Steps: []c06Hop{m(c06Up(10, 0), c06Down), rev, m(c06Down, c06Up(20, 0)), m(c06Up(30, 0), c06Up(30, 0))}})
+		target = append(target, 2, 2, 2, 2)
+	}
+	return bases, target
+}
+
+// c06QuarantineOps: indices (among the Storage calls of the step) of the three calls of the quarantine.
+func c06QuarantineOps(log []string) []int {
+	n := 0
+	for _, l := range log {
+		if strings.HasPrefix(l, "Issue") || strings.HasPrefix(l, "GenKey") {
+			continue
+		}
+		if strings.HasPrefix(l, "Store file(") && strings.Contains(l, ",compromised)") {
+			return []int{n - 1, n, n + 1}
+		}
+		n++
+	}
+	return nil
+}
+
+func c06SweepBases() (bases []c06In, target []int) {
+	dns := c06Subjects[0]
+	m := func(o ...c06Outcome) c06Hop { return c06Hop{Op: "manage", Orc: c06Orc(o...)} }
+	for _, reuse := range []bool{false, true} {
+		c1 := c06Cfg{N: 1, Reuse: reuse, KeyType: "p256"}
+		c2 := c06Cfg{N: 2, Reuse: reuse, KeyType: "p256"}
+		add := func(c c06Cfg, t int, steps ...c06Hop) {
+			bases = append(bases, c06In{Cfg: c, Subj: dns, Steps: steps})
+			target = append(target, t)
+		}
+		add(c1, 0, c06Hop{Op: "obtain", Orc: c06Orc(c06Up(10, 0))}, m(c06Up(20, 0)))
+		add(c1, 1, m(c06Up(10, 0)), c06Hop{Op: "renew", Force: true, Orc: c06Orc(c06Up(20, 0))}, m(c06Up(30, 0)))
+		add(c1, 1, m(c06Up(10, 1)), m(c06Up(20, 0)), m(c06Up(30, 0)))
+		add(c2, 0, m(c06Down, c06Up(10, 0)), m(c06Up(20, 0), c06Up(20, 0)))
+		add(c2, 1, m(c06Down, c06Up(10, 1)), m(c06Up(20, 0), c06Up(20, 0)), m(c06Up(30, 0), c06Up(30, 0)))
+		// both issuers hold a bundle (B's older, A's newer): every Load of the selection fails in turn - a
+		// failing Load must be an error, never a silent fall-back to the other issuer's older certificate
+		add(c2, 2, m(c06Down, c06Up(10, 0)), c06Hop{Op: "renew", Force: true, Orc: c06Orc(c06Up(20, 0), c06Down)},
+			m(c06Up(30, 0), c06Up(30, 0)), m(c06Up(40, 0), c06Up(40, 0)))
+	}
+	return bases, target
+}
+
+func c06RunCase(w *emit.Writer, in c06In, origin string) { c06Emit(w, c06Exec(in, origin)) }
+
+func c06Emit(w *emit.Writer, r c06Result) {
+	if r.skip != "" {
+		w.Meta.Notes = append(w.Meta.Notes, r.skip)
+		return
+	}
+	for _, h := range r.hist {
+		w.Hist(h)
+	}
+	w.Meta.Notes = append(w.Meta.Notes, r.notes...)
+	w.Add(r.c)
+}
+
+// c06RunAll executes the histories with a small worker pool and emits them in order.
+func c06RunAll(w *emit.Writer, ins []c06In, origins []string) {
+	out := make([]c06Result, len(ins))
+	sem := make(chan struct{}, 6)
+	var wg sync.WaitGroup
+	for i := range ins {
+		wg.Add(1)
+		sem <- struct{}{}
+		go func(i int) {
+			defer wg.Done()
+			defer func() { <-sem }()
+			out[i] = c06Exec(ins[i], origins[i])
+		}(i)
+	}
+	wg.Wait()
+	for _, r := range out {
+		c06Emit(w, r)
+	}
+}
+
+// c06Exec runs one history on the real code.
+func c06Exec(in c06In, origin string) (res c06Result) {
+	hist := func(h string) { res.hist = append(res.hist, h) }
 	bw := c06NewWorld(in.Cfg, in.Subj)
+	var fw *c07FSWorld
+	if in.Backend == "filestorage" {
+		dir, err := os.MkdirTemp("", "c06fs-")
+		if err != nil {
+			res.skip = "filestorage history skipped: " + err.Error()
+			return
+		}
+		defer os.RemoveAll(dir)
+		fw = c07NewFSWorld(in.Cfg, in.Subj, dir)
+		bw = fw.c06World
+	}
 	e := &emit.Enc{}
 	c06EncCfg(e, in.Cfg)
 	bw.encSubject(e)
@@ -29,6 +165,8 @@ func c06RunCase(w *emit.Writer, in c06In, origin string) {
 	class := "history"
 	issuances := 0
 	opsSeen := map[string]bool{}
+	symptom := "none"
+	faultedSteps, faultsHit := 0, 0
 	fwd, fwdSteps := true, 0
 	var prevSt []c06Entry
 	for si := range in.Steps {
@@ -51,13 +189,38 @@ func c06RunCase(w *emit.Writer, in c06In, origin string) {
 				fwdSteps++
 			}
 		}
-		o := bw.runHop(*h, nil, true)
+		var o c06Obs
+		var plan *c06Plan
+		if len(h.Fails) > 0 {
+			plan = &c06Plan{Fails: h.Fails, From: -1, Crash: -1}
+			faultedSteps++
+		}
+		if fw != nil {
+			o, _ = fw.runLocalPlan(*h, plan, true)
+			if plan != nil { // a failed Unlock leaves the lock file behind: the staleness rule, at once
+				os.RemoveAll(filepath.Join(fw.dir, "locks"))
+			}
+		} else {
+			o = bw.runHop(*h, plan, true)
+			if plan != nil {
+				bw.breakLocks()
+				if plan.Fails[0] < bw.cnt {
+					faultsHit++
+				}
+			}
+		}
+		res.ops = append(res.ops, c06CountOps(o))
+		res.logs = append(res.logs, o.Log)
 		prevSt = o.stEnc
 		if in.Cfg.Rnd {
 			h.Orc.Perm = c06CompletePerm(in.Cfg.N, o)
 		}
 		c06EncHop(e, *h)
 		c06EncOracle(e, h.Orc)
+		e.Len(len(h.Fails))
+		for _, f := range h.Fails {
+			e.Int(f)
+		}
 		c06EncObs(e, o)
 		obsAll = append(obsAll, o)
 		for _, ev := range o.logEnc {
@@ -65,28 +228,46 @@ func c06RunCase(w *emit.Writer, in c06In, origin string) {
 				issuances++
 			}
 		}
+		// symptom of the spelling finding: something was issued and saved in this step, yet a load
+		// with the requested spelling says "does not exist" (saved under another directory)
+		if bw.sLoad != bw.sSave && o.ProbeRes == 1 {
+			for _, ev := range o.logEnc {
+				if ev[0] == 1 && ev[3] == 1 {
+					symptom = "issued-but-reload-does-not-exist"
+				}
+			}
+		}
 		opsSeen[h.Op] = true
-		w.Hist("op=" + h.Op)
-		w.Hist(fmt.Sprintf("op_res=%s/%d", h.Op, o.Res))
+		hist("op=" + h.Op)
+		hist(fmt.Sprintf("op_res=%s/%d", h.Op, o.Res))
 	}
-	w.Hist("subject=" + in.Subj.Kind)
-	w.Hist(fmt.Sprintf("issuers=%d", in.Cfg.N))
-	w.Hist(fmt.Sprintf("reuse=%v", in.Cfg.Reuse))
-	w.Hist(fmt.Sprintf("policy_random=%v", in.Cfg.Rnd))
-	w.Hist("keytype=" + in.Cfg.KeyType)
-	w.Hist(fmt.Sprintf("issuances=%d", min(issuances, 6)))
-	w.Hist("class=" + class)
-	w.Hist(fmt.Sprintf("forward_history=%v", fwd))
-	w.Hist(fmt.Sprintf("forward_prefix_ops=%d", min(fwdSteps, 6)))
-	for _, n := range bw.oracleNotes {
-		w.Meta.Notes = append(w.Meta.Notes, n)
+	hist("subject=" + in.Subj.Kind)
+	hist(fmt.Sprintf("issuers=%d", in.Cfg.N))
+	hist(fmt.Sprintf("reuse=%v", in.Cfg.Reuse))
+	hist(fmt.Sprintf("policy_random=%v", in.Cfg.Rnd))
+	hist("keytype=" + in.Cfg.KeyType)
+	hist(fmt.Sprintf("issuances=%d", min(issuances, 6)))
+	hist("class=" + class)
+	hist("symptom=" + symptom)
+	hist(fmt.Sprintf("faulted_steps=%d", min(faultedSteps, 3)))
+	hist(fmt.Sprintf("faults_inside_the_operation=%d", min(faultsHit, 3)))
+	if in.Backend == "" {
+		hist("backend=memory")
+	} else {
+		hist("backend=" + in.Backend)
 	}
+	hist(fmt.Sprintf("forward_history=%v", fwd))
+	hist(fmt.Sprintf("forward_prefix_ops=%d", min(fwdSteps, 6)))
+	res.notes = append(res.notes, bw.oracleNotes...)
 	key, _ := json.Marshal(in)
-	w.Add(emit.Case{
+	res.c = emit.Case{
 		Desc: map[string]any{"class": class, "subject_kind": in.Subj.Kind, "issuers": in.Cfg.N, "reuse": in.Cfg.Reuse,
-			"policy_random": in.Cfg.Rnd, "keytype": in.Cfg.KeyType, "origin": origin, "steps": len(in.Steps)},
+			"policy_random": in.Cfg.Rnd, "keytype": in.Cfg.KeyType, "origin": origin, "steps": len(in.Steps),
+			"spelling_dirs_differ": bw.sLoad != bw.sSave, "symptom": symptom, "backend": in.Backend,
+			"faulted_steps": faultedSteps},
 		In: in, Obs: obsAll, Wire: e.String(),
-		Nontrivial: issuances >= 1 && len(in.Steps) >= 2, Key: string(key)})
+		Nontrivial: issuances >= 1 && len(in.Steps) >= 2, Key: string(key)}
+	return res
 }
 
 // kcRevokedWithOtherBundle: looks at the raw storage the way the harness monitor does: is the
@@ -287,8 +468,52 @@ func c06Run(tier string, seed int64, outdir string, replay string) error {
 		c06RunCase(w, in, "replay")
 		return nil
 	}
+	var ins []c06In
+	var origins []string
 	for _, in := range c06Corpus() {
-		c06RunCase(w, in, "corpus")
+		ins, origins = append(ins, in), append(origins, "corpus")
+	}
+	// the same corpus, and a share of the random histories, on the real FileStorage (real files, real
+	// Safe() file names on a real file system, FileStorage's own locks)
+	for _, in := range c06Corpus() {
+		in.Backend = "filestorage"
+		ins, origins = append(ins, in), append(origins, "corpus-fs")
+	}
+	// storage-error sweep: learn the number of Storage calls of the marked step, then fail each in turn
+	bases, target := c06SweepBases()
+	for bi, b := range bases {
+		L := 0
+		if r0 := c06Exec(b, "sweep-base"); len(r0.ops) > target[bi] {
+			L = r0.ops[target[bi]]
+		}
+		for k := 0; k < L; k++ {
+			in := b
+			in.Steps = append([]c06Hop(nil), b.Steps...)
+			in.Steps[target[bi]].Fails = []int{k}
+			ins, origins = append(ins, in), append(origins, "error-sweep")
+		}
+	}
+	// storage errors inside the quarantine of a compromised key (forceRenew / moveCompromisedPrivateKey)
+	qbases, qtarget := c06QuarantineBases()
+	for bi, b := range qbases {
+		r0 := c06Exec(b, "quarantine-base")
+		if len(r0.logs) <= qtarget[bi] {
+			continue
+		}
+		ks := c06QuarantineOps(r0.logs[qtarget[bi]])
+		var plans [][]int
+		for _, k := range ks {
+			plans = append(plans, []int{k})
+		}
+		if len(ks) == 3 {
+			plans = append(plans, []int{ks[1], ks[2]}) // Store .compromised fails and so does the Delete on its error path
+		}
+		for _, f := range plans {
+			in := b
+			in.Steps = append([]c06Hop(nil), b.Steps...)
+			in.Steps[qtarget[bi]].Fails = f
+			ins, origins = append(ins, in), append(origins, "quarantine-errors")
+		}
 	}
 	n := 700
 	if tier == "thorough" {
@@ -296,8 +521,26 @@ func c06Run(tier string, seed int64, outdir string, replay string) error {
 	}
 	r := rand.New(rand.NewSource(seed))
 	for i := 0; i < n; i++ {
-		c06RunCase(w, c06Random(r, true, tier == "thorough"), "random")
+		in := c06Random(r, true, tier == "thorough")
+		if i%8 == 7 {
+			in.Backend = "filestorage"
+		} else if i%4 == 1 {
+			// storage errors in random histories: one failing call in some of the operations
+			// (not once a revocation is pending: forceRenew goes through the retrying entry points, where an
+			// error is retried with minutes of back-off - not modelled, see notes/C07.md)
+			for si := range in.Steps {
+				op := in.Steps[si].Op
+				if op == "revenv" {
+					break
+				}
+				if (op == "manage" || op == "obtain" || op == "renew") && r.Intn(3) == 0 {
+					in.Steps[si].Fails = []int{r.Intn(26)}
+				}
+			}
+		}
+		ins, origins = append(ins, in), append(origins, "random")
 	}
+	c06RunAll(w, ins, origins)
 	canonNote := emit.OracleCheck{Name: "canonical names: Safe(idna(name)) = Safe(name) for every canonical subject used (model's [canon])", OK: len(w.Meta.Notes) == 0}
 	if !canonNote.OK {
 		canonNote.Detail = w.Meta.Notes[0]
